@@ -38,6 +38,8 @@ type propCfg struct {
 	Thorough    plan
 	// C05/C40: a divergence that does not replay is itself a violation.
 	IrreproducibleIsViolation bool
+	// C40: build protoc-gen-go from the working tree and hand its path to the workers.
+	Plugin bool
 }
 
 var commonAssumptions = []string{
@@ -181,5 +183,22 @@ func init() {
 		Quick:                     plan{Builds: []buildCfg{{Race: false, Share: 1}}, Secs: 25},
 		Thorough:                  plan{Builds: []buildCfg{{Race: false, Share: 3}, {Race: false, Tags: []string{"protolegacy"}, Share: 1}, {Race: false, Tags: []string{"protoopaque"}, Share: 1}}, Secs: 600},
 		IrreproducibleIsViolation: true,
+	}
+}
+
+func init() {
+	props["C40"] = &propCfg{
+		Level:                     "exploration",
+		Rule:                      "a scenario is a seeded CodeGeneratorRequest: 1-4 files to generate drawn from the ~100 linked files (dependencies in topological order) and a parameter string (paths=, module=, M remapping, default_api_level, apilevelM, annotate_code); it is run in-process the way protoc-gen-go's main does under 8 seeds of the Go map iteration order, once with file_to_generate permuted, and 2-3 times through the real protoc-gen-go binary (built from the working tree with the runtime seam) in fresh processes with different map seeds, request on stdin, response from stdout; evaluations = generator runs compared; non-trivial = request accepted and response compared; distinct by hash of (files, parameters, reference response)",
+		Assumptions:               append([]string{"requests that protogen.Options.New rejects produce no response (stderr, exit 1) and are outside the property; they are counted", "every Go map of the generator is behind the runtime seam"}, commonAssumptions...),
+		Components:                comps("process boundary: os/exec of protoc-gen-go built from the working tree; stdin/stdout pipes"),
+		Clauses:                   "byte-identical CodeGeneratorResponse for the same request across repeated runs, Go map iteration orders and separate processes; same set of (name, content) when generated files are requested in another order",
+		NotDecided:                "random schemas beyond the linked files",
+		Probes:                    []string{"plugin-binary-runs", "request-order-permutations"},
+		FaultKinds:                []string{"map-order", "process-restart"},
+		Quick:                     plan{Builds: []buildCfg{{Race: false, Share: 1}}, Secs: 30},
+		Thorough:                  plan{Builds: []buildCfg{{Race: false, Share: 1}}, Secs: 600},
+		IrreproducibleIsViolation: true,
+		Plugin:                    true,
 	}
 }
